@@ -27,11 +27,26 @@ def run(ck, an, tier):
     ledger.marking_equations(d, an, {"equations", "margin"})      # the NLV tested is the liquidation-side, marked-to-market value
     ledger.valuation_formulas(d, an, {"nlv"})
     silent(ck, an)
+    exc_class(ck, an)
     s1(ck, an)
     s2(ck, an)
     s3(ck, an)
     s4(ck, an)
     s5(ck, an, tier)
+
+
+def exc_class(ck, an):
+    c = an.prog.cls("EndOfEpisodeError")
+    ck.check(not c.bases and c.ext_bases in (["Exception"], ["builtins.Exception"]), "MRO", "S3.signal-is-its-own-exception", "EndOfEpisodeError", c.loc, "EndOfEpisodeError derives directly from Exception (no other handler in the package can swallow it)",
+             f"EndOfEpisodeError bases: {[b.name for b in c.bases] + c.ext_bases}: handlers for that base (ValueError, AttributeError, NotImplementedError ...) would swallow the end-of-episode signal", construct="class EndOfEpisodeError(Exception)")
+    # no handler in the package catches it (or Exception / bare) except step's
+    for f in an.functions():
+        for n in ast.walk(f.node):
+            if isinstance(n, ast.ExceptHandler):
+                names = handler_names(n)
+                if names is None or any(x in ("Exception", "BaseException", "EndOfEpisodeError") for x in names):
+                    ck.check(f.short == "TradingEnv.step", "EXC", "S3.only-step-catches-the-signal", f.short, f"{f.module.relpath}:{n.lineno}", "only TradingEnv.step catches the end-of-episode signal",
+                             f"{f.short} has a handler for {names or 'everything'}: an insolvency raised below it would be swallowed", construct="except " + (ast.unparse(n.type) if n.type else ""))
 
 
 def silent(ck, an):
